@@ -10,6 +10,7 @@ exactly the vacant indices in ascending order, claiming a vacant slot and pushin
 panic and re-establish the invariant.
 -/
 import Daac.Proofs.TieH
+import Daac.Proofs.TieL
 import Daac.Proofs.HelperLL
 namespace Daac.Props.TieBuild
 open Daac Daac.Gen Daac.Tie.H
@@ -86,5 +87,52 @@ theorem generated_push_block (g : Gen.H.BuildHelper) (vac : List Nat) (G : Good 
   · exact wf_of_size G.wf (size_preserved g g' u 0 (Or.inr (Or.inr hg)))
   · exact (Helper.pushBlock_ok G.mwf e).2.2.2.1
   · exact ll'
+
+/-! ### Layout primitives of both builders (Proofs/TieL), for reachable helper states
+
+`find_base` walks the vacant list lazily while the model first collects it; the two agree whenever
+the walk succeeds and the list is no longer than the capacity — both facts hold for every helper
+satisfying the invariant (`Helper.vacant_ll`, `Helper.LL.length_le`). -/
+
+theorem vac_len (g : Gen.H.BuildHelper) (vac : List Nat) (G : Good g vac) : vac.length ≤ g.items.size := by
+  have h := Helper.LL.length_le G.mwf G.ll
+  simpa [Helper.cap, Tie.H.repr] using h
+
+/-- Byte-wise `find_base` as translated = the model's `findBase`, on every helper satisfying the invariant. -/
+theorem generated_find_base_bytewise (b : Gen.LB.Builder) (g : Gen.H.BuildHelper) (vac : List Nat)
+    (G : Good g vac) (idx : Std.HashMap (List Nat) Nat) (labels : List Nat) (hl : labels ≠ [])
+    (hs : 0 < b.states.size ∧ b.states.size ≤ 4294967295) :
+    norm (Gen.LB.Builder.find_base b labels g) = norm (findBase .bytewise ⟨b.states, Tie.H.repr g, idx⟩ labels) :=
+  Tie.L.B.find_base_eq b g G.wf idx labels hl vac (Helper.vacant_ll G.mwf G.ll) (vac_len g vac G) hs
+
+/-- Char-wise `find_base` as translated = the model's `findBase`, on every helper satisfying the invariant. -/
+theorem generated_find_base_charwise (b : Gen.LC.Builder) (g : Gen.H.BuildHelper) (vac : List Nat)
+    (G : Good g vac) (idx : Std.HashMap (List Nat) Nat) (edges : List (Nat × Nat)) (hl : edges ≠ [])
+    (hs : b.states.size ≤ 4294967295) (hz : b.states.size ^^^ (edges.map (·.1)).headD 0 ≠ 0) :
+    norm (Gen.LC.Builder.find_base b edges g)
+      = norm (findBase .charwise ⟨b.states, Tie.H.repr g, idx⟩ (edges.map (·.1))) :=
+  Tie.L.C.find_base_eq b g G.wf idx edges hl vac (Helper.vacant_ll G.mwf G.ll) (vac_len g vac G) hs hz
+
+/-- The remaining layout primitives as translated = the model's, collected (Proofs/TieL). -/
+theorem generated_layout_eq_model (b : Gen.LB.Builder) (c : Gen.LC.Builder) (g : Gen.H.BuildHelper) (hw : Wf g)
+    (idx : Std.HashMap (List Nat) Nat) (base blk : Nat) (labels : List Nat) (edges : List (Nat × Nat)) :
+    norm ((Gen.LB.Builder.check_valid_base base labels g).map Option.isSome) = norm (baseOk .bytewise (Tie.H.repr g) base labels) ∧
+    norm ((Gen.LC.Builder.verify_base base edges g).map Option.isSome) = norm (baseOk .charwise (Tie.H.repr g) base (edges.map (·.1))) ∧
+    norm ((Gen.LB.Builder.remove_invalid_checks b blk g).map (fun p => p.2.states)) = norm (removeInvalidChecks b.states (Tie.H.repr g) blk) ∧
+    (g.block_len = Gen.blockLen →
+      norm ((Gen.LB.Builder.extend_array b g).map (fun p => (p.2.1.states, Tie.H.repr p.2.2)))
+        = norm ((extendArray .bytewise ⟨b.states, Tie.H.repr g, idx⟩).map (fun l => (l.states, l.h)))) ∧
+    (g.block_len = c.block_len →
+      norm ((Gen.LC.Builder.extend_array c g).map (fun p => (p.2.1.states, Tie.H.repr p.2.2)))
+        = norm ((extendArray .charwise ⟨c.states, Tie.H.repr g, idx⟩).map (fun l => (l.states, l.h)))) ∧
+    (b.states = #[] →
+      norm ((Gen.LB.Builder.init_array b).map (fun p => (p.2.states, Tie.H.repr p.1)))
+        = norm (Tie.L.initModel .bytewise bytewiseBlockLen b.num_free_blocks)) ∧
+    (c.states = #[] →
+      norm ((Gen.LC.Builder.init_array c).map (fun p => (p.2.states, Tie.H.repr p.1)))
+        = norm (Tie.L.initModel .charwise (max 2 (Nat.nextPowerOfTwo c.mapper.alphaSize)) c.num_free_blocks)) :=
+  ⟨Tie.L.B.check_valid_base_eq g hw base labels, Tie.L.C.verify_base_eq g hw base edges,
+   Tie.L.B.remove_invalid_checks_eq b g hw blk, fun hb => Tie.L.B.extend_array_eq b g hw hb idx,
+   fun hb => Tie.L.C.extend_array_eq c g hw hb idx, Tie.L.B.init_array_eq b, Tie.L.C.init_array_eq c⟩
 
 end Daac.Props.TieBuild
